@@ -34,7 +34,13 @@ func Key(i int) crypto.PrivateKey {
 
 func Pub(i int) crypto.PublicKey { return Key(i).PublicKey() }
 
+// DAOIndex names the address of the DAO module account (a recipient no key belongs to).
+const DAOIndex = 900
+
 func Addr(i int) sdk.Address {
+	if i == DAOIndex {
+		return sdk.Address(DAOAddr)
+	}
 	if i >= OddAddrBase {
 		return OddAddr(i)
 	}
